@@ -488,11 +488,6 @@ func NewPathDecoder() Decoder {
 	return ifaceDecoder
 }
 
-var (
-	truebytes  = []byte("true")
-	falsebytes = []byte("false")
-)
-
 func (d *interfaceDecoder) DecodePath(ctx *RuntimeContext, cursor, depth int64) ([][]byte, int64, error) {
 	buf := ctx.Buf
 	cursor = skipWhiteSpace(buf, cursor)
@@ -510,19 +505,19 @@ func (d *interfaceDecoder) DecodePath(ctx *RuntimeContext, cursor, depth int64) 
 			return nil, 0, err
 		}
 		cursor += 4
-		return [][]byte{truebytes}, cursor, nil
+		return [][]byte{[]byte("true")}, cursor, nil
 	case 'f':
 		if err := validateFalse(buf, cursor); err != nil {
 			return nil, 0, err
 		}
 		cursor += 5
-		return [][]byte{falsebytes}, cursor, nil
+		return [][]byte{[]byte("false")}, cursor, nil
 	case 'n':
 		if err := validateNull(buf, cursor); err != nil {
 			return nil, 0, err
 		}
 		cursor += 4
-		return [][]byte{nullbytes}, cursor, nil
+		return [][]byte{[]byte("null")}, cursor, nil
 	}
 	return nil, cursor, errors.ErrInvalidBeginningOfValue(buf[cursor], cursor)
 }
